@@ -663,7 +663,9 @@ def style_worker(chunk):
 
 SIDES = ["top", "right", "bottom", "left"]
 PALETTE = [[2.0, [255, 0, 0], "solid"], [3.0, [0, 255, 0], "dashes"], [0.35, [0, 0, 255], "dots"]]
-RECTS = [(1, 1, 2, 2), (0, 0, 0, 1), (1, 0, 2, 0), (0, 1, 1, 2), (1, 1, 1, 2), (0, 2, 2, 2)]
+# the merged rectangles of a 3x3 table for which BOTH stroke classes exist: a refused stroke (start edge interior) that would
+# have run on beyond the rectangle, and an accepted stroke that starts outside and crosses interior edges
+RECTS = [(0, 1, 1, 2), (1, 0, 1, 1), (0, 1, 1, 1), (1, 0, 2, 1), (1, 0, 1, 2), (0, 1, 2, 1), (1, 1, 1, 2), (1, 1, 2, 1)]
 
 
 def a1(r, c):
@@ -852,7 +854,7 @@ class BorderSpec:
         if st.line is None:
             st.line = stroke_line(side, r, c)
         if refuse:
-            outcome = "refused"
+            outcome = "refused+ext" if any(not interior(st.rect, e) for e in es) else "refused"
             if not warned:
                 fails.append(({"mechanism": "border", "view": "live", "class": "merged-edge-accepted-silently", "where": "-"},
                               f"{ev}: the start cell's {side} edge is inside merged {st.rect} but no RuntimeWarning was issued"))
@@ -861,7 +863,7 @@ class BorderSpec:
                 fails.append(({"mechanism": "border", "view": "live", "class": "refused-visible-edge", "where": "-"},
                               f"{ev}: RuntimeWarning 'merged' although the start cell's {side} edge is not inside a merged rectangle"))
             visible = [e for e in es if not interior(st.rect, e)]
-            outcome = "overlap" if any(e in st.edges for e in visible) else "fresh"
+            outcome = ("overlap" if any(e in st.edges for e in visible) else "fresh") + ("+cross" if len(visible) < len(es) else "")
             for e in es:
                 if e in st.edges:
                     st.older[e].append(st.edges[e])
@@ -928,6 +930,7 @@ def border_plan(tier, seed):
             ("all-cycle", [plain], 2, False),
             ("collinear-cycle3", [plain, merged(seed)], 2, True),
             ("collinear-one-reopen", [plain], 2, False),
+            ("collinear-cycle3", [merged(seed + 1)], 2, False),
         ]
     return [
         ("all-all", [plain, merged(seed), merged(seed + 1)], 2, False),
@@ -999,8 +1002,9 @@ def main():
     run.floor(">= 100 attribute pairs styled", sum(1 for k in oc if k.startswith("spec:") and "," in k) >= 100)
     run.floor(">= 150 style documents and >= 3 fixtures compared read-before-save vs not", run.counters["style_cases"] >= 150 and run.counters["fixture_cases"] >= 3)
     run.floor("fixtures contributed cells with borders", run.counters["fixture_cells_with_border"] >= 1)
-    run.floor(">= 1 history in which two strokes overlap, >= 1 refused stroke on a merged edge, >= 1 stroke over an existing one after save+reopen",
-              oc.get("s:overlap", 0) >= 1 and oc.get("s:refused", 0) >= 1 and oc.get("rs:overlap", 0) >= 1)
+    run.floor(">= 1 history in which two strokes overlap, >= 1 refused stroke that would have run on beyond the merged rectangle, >= 1 accepted stroke crossing "
+              "interior edges, >= 1 stroke over an existing one after save+reopen",
+              oc.get("s:overlap", 0) >= 1 and oc.get("s:refused+ext", 0) >= 1 and any(k.endswith("+cross") for k in oc) and oc.get("rs:overlap", 0) >= 1)
     run.floor(">= 20000 stroke transitions and >= 1000 save/reopen probes", run.counters["transitions"] >= 20000 and run.counters["probes"] >= 1000)
     run.assume("border looks are three representatives (solid/dashes/dots, widths 2.0/3.0/0.35); widths needing more than 2 decimals, the 'none' pattern, tables other than 3x3, "
                "more than one merged rectangle and histories longer than the depth bound are not explored")
